@@ -281,6 +281,7 @@ func scenariosFor(tier string) []vrt.Scenario {
 		add(b, s2, ms(30), sl(310), restart, sl(300), stop) // Restart while an invocation of the later schedule is in flight
 		add(b, s2, ms(120), sl(400), restart, sl(900), stop)
 		add(b, s5, 0, sl(520), stop)
+		add(b, s1, ms(120), sl(110), restart, restart, restart, stop) // Restarts pile up while the function executes
 		add(b, s6, ms(30), sl(300), restart, sl(600), stop)
 		out = append(out, scenario(cfg{s2, ms(30), []step{sl(150), restart, sl(300), stop}}).WithPlainPoints(1))
 		out = append(out, scenario(cfg{s1, ms(30), []step{sl(110), stop}}).WithPlainPoints(1))
